@@ -272,7 +272,7 @@ def main(mod):
     corr_error = None
     try:
         mod.correspondence(ctx)
-    except Exception:
+    except BaseException:          # incl. SystemExit / KeyboardInterrupt raised by the code under check
         corr_error = traceback.format_exc()
 
     known = load_known(prop)
